@@ -17,6 +17,8 @@ import PyYetiVerif.Model.FdePsd
                                     → `rows|ampb|aveb` | `value-error` | `index-error`
   sc  tol right | s n or v b… | s n or v b… | y…    sigcount pipeline (findap → rainflow → binify)
   fde nbins | amp cnt ; …           fdepsd bookkeeping  → `amax|levels|count|bincount|df4 df8 df12`
+  ab  n right | data…               getbins(n, max(data), min(data), right) and the bin of every datum
+                                    → `edges | digitize indices | covered flags` | `value-error` (no data)
   ff  resp Q f T0 nbins tol | x…    per-frequency worker at Float (`Fde.fdeFreq`): every number is the
                                     decimal value of an IEEE-754 bit pattern; `resp` = `a` | `p`
                                     → `srs var amax g2max|levels|count|bincount|df4 df8 df12|18 psd-row values`
@@ -117,6 +119,16 @@ def fmtTab (t : Fde.TableOut Float) : String :=
 
 def answer (line : String) : String :=
   match groups line with
+  | ["ab", n, r] :: [xs] => match n.toNat?, parseBool r, parseRats xs with
+      | some n, some r, some xs => match Binify.maxOf xs, Binify.minOf xs with
+          | some mx, some mn =>
+              let bb := Binify.getbinsScalar n mx mn r
+              let idx := xs.map fun x => Binify.digitize r x bb
+              -- covered: 1 ≤ idx ≤ n, i.e. the datum lies in one of the n half-open bins
+              let cov := idx.map fun d => if 1 ≤ d ∧ d ≤ n then 1 else 0
+              s!"{fmtRats bb}|{fmtNats idx}|{fmtNats cov}"
+          | _, _ => "value-error"
+      | _, _, _ => "bad-op"
   | ["ff", rs, q, f, t0, n, tol] :: [xs] =>
       match parseResp rs, parseF q, parseF f, parseF t0, n.toNat?, parseF tol, parseFs xs with
       | some rs, some q, some f, some t0, some n, some tol, some x =>
